@@ -300,7 +300,7 @@ async fn exec_once(sc: &Scen, x_runtime: Option<tokio::runtime::Handle>) -> (Out
                 let t0 = Instant::now();
                 loop {
                     let hit = match sc.phase {
-                        Phase::Checking => true,
+                        Phase::Checking => x.ice_transport().state() != IceTransportState::New,
                         Phase::IceConnected => matches!(x.ice_transport().state(), IceTransportState::Connected | IceTransportState::Completed),
                         _ => x.verif_lc_dtls_transport().is_some(),
                     };
@@ -321,7 +321,11 @@ async fn exec_once(sc: &Scen, x_runtime: Option<tokio::runtime::Handle>) -> (Out
                     let mut reached = true;
                     loop {
                         let hit = match ph {
-                            Phase::Checking => true,
+                            // "checking" = the answer has been applied far enough for ICE to have been started
+                            // (injecting `ice_transport().stop()` BEFORE `start()` is a different scenario: the later
+                            // `start()` revives a transport whose sockets are gone — not reachable through
+                            // PeerConnection, whose close() also closes signaling)
+                            Phase::Checking => xw.ice_transport().state() != IceTransportState::New,
                             Phase::IceConnected => matches!(xw.ice_transport().state(), IceTransportState::Connected | IceTransportState::Completed),
                             _ => xw.verif_lc_dtls_transport().is_some(),
                         };
@@ -342,7 +346,9 @@ async fn exec_once(sc: &Scen, x_runtime: Option<tokio::runtime::Handle>) -> (Out
                     }
                 }
                 p.deliver_answer().await.ok();
-                if let Ok((pre, reached)) = watcher.await { out.pre = pre; if !reached { out.notes.push("phase-not-reached".into()); } }
+                // badFingerprint injects nothing at the phase boundary (the event IS the tampered answer): its start
+                // state is the snapshot taken before the answer was delivered
+                if let Ok((pre, reached)) = watcher.await { if sc.events != [Event::BadFingerprint] { out.pre = pre; } if !reached { out.notes.push("phase-not-reached".into()); } }
             }
             _ => {
                 out.pre = snapshot(&x);
@@ -708,8 +714,10 @@ pub fn run(args: &Args) {
             mk(Mode::WebRtc, DtlsHandshaking, Close, true, 0), mk(Mode::WebRtc, Checking, Close, false, 0), mk(Mode::WebRtc, OfferMade, Close, false, 0),
             mk(Mode::WebRtc, ChannelsOpen, IceStop, false, 0), mk(Mode::Rtp, Connected, Close, false, 0), mk(Mode::Rtp, Connected, Drop, false, 0),
             // ICE variants and per-section transports (audit C4)
-            mk(Mode::WebRtc, ChannelsOpen, Close, false, 1), mk(Mode::WebRtc, ChannelsOpen, Close, false, 2), mk(Mode::Rtp, Connected, Close, false, 3)];
-        if args.tier_thorough { l.extend([mk(Mode::WebRtc, Created, Close, false, 0), mk(Mode::WebRtc, Created, Drop, false, 0), mk(Mode::WebRtc, DtlsHandshaking, Drop, false, 0),
+            mk(Mode::WebRtc, ChannelsOpen, Close, false, 1), mk(Mode::WebRtc, ChannelsOpen, Close, false, 2), mk(Mode::Rtp, Connected, Close, false, 3),
+            // close() right after creation, before the connection's task has run (round 3: gathering loop)
+            mk(Mode::WebRtc, Created, Close, false, 0)];
+        if args.tier_thorough { l.extend([mk(Mode::WebRtc, Created, Drop, false, 0), mk(Mode::WebRtc, DtlsHandshaking, Drop, false, 0),
             mk(Mode::WebRtc, ChannelsOpen, CloseTwice, false, 0), mk(Mode::Srtp, Connected, Close, false, 0), mk(Mode::Srtp, Connected, Drop, false, 0),
             mk(Mode::WebRtc, MediaFlowing, Close, false, 0), mk(Mode::WebRtc, Renegotiating, Close, false, 0), mk(Mode::WebRtc, Connected, Close, true, 0),
             mk(Mode::WebRtc, ChannelsOpen, Drop, false, 2), mk(Mode::Rtp, Connected, Drop, false, 3), mk(Mode::Srtp, Connected, Close, false, 3)]); }
